@@ -31,8 +31,8 @@ CLAIMS = {
          "IEEE doubles handled bit-precisely by CBMC; small attribute shapes only; osu and mania not covered"),
  "C14": ("proof", "Partial: passed_objects(n) limits to exactly n for every n incl. 0 and is unlimited when unset; catch's limited object counter obeys its per-call contract (Kani, all values) and by induction (Verus lemma, unbounded) counts min(n, total), monotonically and saturating; taiko's counting closure inside the real create_difficulty_objects gives max_combo == min(n, hits) (bounded, <= 3 objects); gradual values count exactly the first i objects (bounded, from C02's obligations). osu!'s counting closure and mania's n_objects call site are not under contract (attempts run out of memory).", "DESIGN.md §5 C14",
          "osu convert_objects does not finish in CBMC even for one object; mania n_objects vs. map rewrites (Invert) not checked"),
- "C15": ("other", "Unbounded Verus proofs on the extracted real code for next() (osu, catch) and len() (all four modes): Some iff values remain, one step, invariant preserved, indices in bounds, len()==remaining - for every object count. Bounded stand-ins for the rest: iterator-protocol obligations (len/size_hint == remaining; next; Iterator::nth returns None when fewer than k+1 values remain; invariant preserved so exhausted stays exhausted without overflow) checked from every state of the representation invariant with the object count fixed per harness (0..3 quick, 4 thorough) and idx / k fully symbolic, for osu, catch, mania and the healthy taiko class; gradual performance nth/last/next for osu, mania, catch; F3/F4 (taiko) are known findings.", "DESIGN.md §5 C15",
-         "skill process/eval stubbed (Kani) resp. external_body contracts (Verus); inductive base case (new establishes the invariant) not proved; Iterator::nth and mania's next stay bounded"),
+ "C15": ("proof", "Unbounded Verus proofs on the mechanically extracted real code of the osu!, catch and mania gradual difficulty calculators: next(), Iterator::nth() and len() obey the iterator protocol for EVERY object count, position and n (Some iff enough values remain, exactly min(n+1, remaining) values consumed, nth counts the same objects as n+1 next() calls, invariant preserved so an exhausted calculator stays exhausted, all indices in bounds, no overflow); taiko len() likewise. Bounded Kani stand-ins (object count fixed per harness, position and n symbolic) for the same clauses on the un-extracted code incl. taiko's healthy class and the gradual performance next/nth/last of all four modes; taiko short maps / non-hit-first maps are known findings F4/F3.", "DESIGN.md §5 C15",
+         "callees of next/nth (skill process, eval, combo/count increments, clone) are external_body contracts in Verus resp. stubs in Kani; rewrites R10/R11 model std's skip/take/zip/filter; the inductive base case (new establishes the invariant) is not proved; taiko next/nth bounded only"),
  "C16": ("other", "Partial, bounded: the open section's peak is always appended before export or aggregation (so all skills report the same number of sections), strains and difficulty are computed on the same conversion (call-site contract), StrainsVec iter/sum/retain/transmute equal the plain list for <= 3 pushes. The decay-weighted aggregation itself (std sort) and finiteness of peaks are not covered.", "DESIGN.md §5 C16",
          "difficulty_value (sort) did not finish and is not claimed; peaks' finiteness is float pipeline"),
  "C17": ("proof", "Partial: CS/HP given with with_mods=true are reported back unchanged for all mods and clock rates (proof); ok/meh windows exist exactly per mode (proof); HR never lowers / EZ never raises an attribute on [0,10] (proof); with_mods values give clock-rate independent windows (bounded grid); the osu! and catch difficulty setups store the builder's AR/HP/hit windows unchanged (call-site proofs); monotonicity of the five OD window tables over the f32 input domain (thorough tier; the AR table does not finish). build()/hit_windows() float agreement and the AR/OD round trip are not claimed.", "DESIGN.md §5 C17",
